@@ -15,6 +15,7 @@ LEVEL_TEXT = ('Proof: the accumulating loop equals header ++ one piece per resid
               '(for any palette without ">" in colour names, in particular after ANY update history); a dictionary is accepted iff it '
               'gives all 20 residues one of the 17 colours, becomes the palette when accepted, leaves it unchanged when rejected. '
               'Tie: fragments, block sizes, whitelist, default palette from source; byte-for-byte correspondence of renderings.')
+LEVEL_NOTE_MINIPY = ' Whole-function semantic ties (source translated to Core/MiniPy terms on every run, proved equal to the model for all inputs): get_HTMLColorString and set_HTMLColorResiduePalette.'
 LEVEL_NOTE = 'Closed under the global context. Trusts py2coq fingerprints of the loop shape, harness canonicalisation of dict arguments.'
 TECHNIQUE = 'Coq proof (string/list-of-ascii induction, state-machine invariant over update histories) + in-Coq byte-exact correspondence'
 
